@@ -23,16 +23,22 @@ States == {"requested", "established", "peerrequested", "disestablished"}
 Rec == [peer : Nodes, tun : Nat, addr : STRING, type : {"terminal", "forwarding"}, state : States, lidx : Nat, ridx : Nat]
 
 VARIABLES recs,      \* recs[n] : set of relay records of node n
-          tuns       \* tuns[n] : set of peers n has a tunnel with
+          tuns,      \* tuns[n] : set of peers n has a tunnel with
+          ridx       \* ridx[n] : the node's table of relay indexes (HostMap.Relays): set of <<index, tunnel it leads to>>
 
-vars == <<recs, tuns>>
+vars == <<recs, tuns, ridx>>
 
 Key(r) == <<r.peer, r.addr, r.tun>>
 Keys(S) == {Key(r) : r \in S}
 ByKey(S, k) == CHOOSE r \in S : Key(r) = k
 OwnerOf(a) == CHOOSE n \in Nodes : AddrOf[n] = a
 
-Init == recs = [n \in Nodes |-> {}] /\ tuns = [n \in Nodes |-> {}]
+Init == recs = [n \in Nodes |-> {}] /\ tuns = [n \in Nodes |-> {}] /\ ridx = [n \in Nodes |-> {}]
+
+\* relay indexes disappear with the tunnel that owns them: every index the node would still accept relayed packets on
+\* belongs to a relay record of a tunnel the node holds (tun = 0 names a tunnel that is gone)
+RidxOK(S, ri) == \A e \in ri : \E r \in S : r.lidx = e[1] /\ r.tun = e[2]
+IdxOf(S) == {<<r.lidx, r.tun>> : r \in S}
 
 \* valid life of one record
 ValidTransition(old, new) ==
@@ -69,8 +75,9 @@ MayForward(n, s, k, S) ==
 \* an authenticated datagram from s handled by n: control messages may change records, relayed packets may be
 \* forwarded; a relayed packet that carries a valid handshake may bring a disestablished record of that relay back
 \* and may create a tunnel (newtuns)
-Recv(n, s, typ, new, fwd, newtuns) ==
+Recv(n, s, typ, new, fwd, newtuns, ri) ==
     /\ s \in tuns[n]
+    /\ RidxOK(new, ri) /\ ridx' = [ridx EXCEPT ![n] = ri]
     /\ LET old == recs[n]
            changed == {k \in Keys(old) \cup Keys(new) : k \notin Keys(old) \/ k \notin Keys(new) \/ ByKey(old, k) # ByKey(new, k)}
        IN /\ (typ \notin {"control", "relay"} => changed = {})
@@ -87,10 +94,13 @@ Recv(n, s, typ, new, fwd, newtuns) ==
 
 \* something not authenticated by a tunnel (handshake, recv_error, garbage) or a local inside packet: relay records may
 \* only be created by the node itself starting relays (state requested, terminal) and nothing is forwarded
-Local(n, new, newtuns) ==
+\* Alive(r): the tunnel record r lives on is still held after the step (a node may hold several tunnels with one peer;
+\* the closed world below has one per peer, recorded runs name the tunnel: r.tun)
+Local(n, new, newtuns, ri, Alive(_)) ==
+    /\ RidxOK(new, ri) /\ ridx' = [ridx EXCEPT ![n] = ri]
     /\ LET old == recs[n]
-           lost == tuns[n] \ newtuns
-           kept == {r \in old : r.peer \notin lost}
+           lost == tuns[n] \ newtuns                                  \* peers with which no tunnel is left
+           kept == {r \in old : r.peer \notin lost /\ Alive(r)}
            expected == {IF r.addr \in {AddrOf[p] : p \in lost} /\ r.state = "established"
                           THEN [r EXCEPT !.state = "disestablished"] ELSE r : r \in kept}
        IN /\ \A r \in new : \/ r \in kept \/ r \in expected
@@ -98,7 +108,7 @@ Local(n, new, newtuns) ==
                             \/ (Key(r) \notin Keys(kept) /\ r.peer \in newtuns /\ r.state = "requested" /\ r.type = "terminal"
                                 /\ r.addr # AddrOf[n])
           /\ \A r \in kept : Key(r) \in Keys(new)                 \* records disappear only with their tunnel
-          /\ \A r \in new : r.peer \in newtuns
+          /\ \A r \in new : r.peer \in newtuns /\ Alive(r)         \* and they do disappear with it
           /\ UniqueIdx(new)
     /\ recs' = [recs EXCEPT ![n] = new]
     /\ tuns' = [tuns EXCEPT ![n] = newtuns]
@@ -109,14 +119,15 @@ RecSmall == {r \in [peer : Nodes, tun : {1}, addr : {AddrOf[x] : x \in Nodes}, t
                     lidx : 1..2, ridx : {0}] : TRUE}
 Next == \E n \in Nodes :
            \/ \E s \in tuns[n], r \in RecSmall, typ \in {"control", "relay", "data"}, fwd \in SUBSET (Nodes \ {n}) :
-                 Recv(n, s, typ, {x \in recs[n] : Key(x) # Key(r)} \cup {r}, fwd, tuns[n])
-           \/ \E s \in tuns[n], typ \in {"control", "relay", "data"}, fwd \in SUBSET (Nodes \ {n}) : Recv(n, s, typ, recs[n], fwd, tuns[n])
+                 Recv(n, s, typ, {x \in recs[n] : Key(x) # Key(r)} \cup {r}, fwd, tuns[n], IdxOf({x \in recs[n] : Key(x) # Key(r)} \cup {r}))
+           \/ \E s \in tuns[n], typ \in {"control", "relay", "data"}, fwd \in SUBSET (Nodes \ {n}) : Recv(n, s, typ, recs[n], fwd, tuns[n], IdxOf(recs[n]))
            \/ \E p \in Nodes \ {n} :
                  LET newtuns == IF p \in tuns[n] THEN tuns[n] \ {p} ELSE tuns[n] \cup {p}
                      kept == {r \in recs[n] : r.peer \in newtuns}
-                 IN Local(n, {IF r.addr = AddrOf[p] /\ p \notin newtuns /\ r.state = "established"
-                                THEN [r EXCEPT !.state = "disestablished"] ELSE r : r \in kept}, newtuns)
-           \/ \E r \in RecSmall : Local(n, recs[n] \cup {r}, tuns[n])
+                     after == {IF r.addr = AddrOf[p] /\ p \notin newtuns /\ r.state = "established"
+                                 THEN [r EXCEPT !.state = "disestablished"] ELSE r : r \in kept}
+                 IN Local(n, after, newtuns, IdxOf(after), LAMBDA r : r.peer \in newtuns)
+           \/ \E r \in RecSmall : Local(n, recs[n] \cup {r}, tuns[n], IdxOf(recs[n] \cup {r}), LAMBDA x : x.peer \in tuns[n])
 Spec == Init /\ [][Next]_vars
 
 -----------------------------------------------------------------------------
@@ -125,4 +136,5 @@ OnlyRelaysForward == \A n \in Nodes : \A r \in recs[n] : r.type = "forwarding" =
 RecordsOnLiveTunnels == \A n \in Nodes : \A r \in recs[n] : r.peer \in tuns[n]
 NotToSelf == \A n \in Nodes : \A r \in recs[n] : r.addr # AddrOf[n]
 IndexesUnique == \A n \in Nodes : UniqueIdx(recs[n])
+IndexesOwned == \A n \in Nodes : RidxOK(recs[n], ridx[n])
 =============================================================================
